@@ -5,6 +5,7 @@ import (
 	"go/ast"
 	"go/token"
 	"go/types"
+	"strings"
 
 	"golang.org/x/tools/go/types/typeutil"
 )
@@ -313,6 +314,24 @@ func (c *Ctx) checkInvs(st *State, id string, ls *LoopSpec, pos token.Pos, extra
 		return
 	}
 	env := c.invEnv(st, pos, extra)
+	if phase == "init" {
+		for _, g := range ls.Ghosts {
+			v, err := env.trVal(g.Expr)
+			if err != nil {
+				c.abort("loop %s ghost %s: %v", id, g.Name, err)
+				return
+			}
+			if v.S != "?nil" {
+				n := c.fresh("g_"+g.Name, v.S)
+				st.assume(eq(n, v.T))
+				v.T = n
+			}
+			if isSliceSort(v.S) {
+				st.assume("(>= " + sLen(v) + " 0)")
+			}
+			st.ghost[g.Name] = v
+		}
+	}
 	for i, inv := range ls.Invariants {
 		t, err := env.trBool(inv.Expr)
 		if err != nil {
@@ -347,7 +366,45 @@ func isNilNode(n ast.Node) bool {
 	return n == nil
 }
 
+// afterLoop applies `assert @ after loop <id>: e` / `assume @ after loop <id>: e` clauses (proof hints:
+// asserted as obligations, then available as facts) to every state that leaves the loop.
+func (c *Ctx) afterLoop(id string, pos token.Pos, next func(*State)) func(*State) {
+	return func(s *State) {
+		c.pointClauses(s, "after loop "+id, pos)
+		next(s)
+	}
+}
+
+func (c *Ctx) pointClauses(s *State, point string, pos token.Pos) {
+	if c.prefix != "" || c.unit.Contract == nil {
+		return
+	}
+	n := 0
+	for _, pc := range c.unit.Contract.Points {
+		if pc.Point != point {
+			continue
+		}
+		n++
+		env := c.invEnv(s, pos, nil)
+		t, err := env.trBool(pc.C.Expr)
+		if err != nil {
+			c.abort("%s @ %s: %v", pc.C.Kind, point, err)
+			return
+		}
+		if pc.C.Kind == "assert" {
+			c.addObl(s, "assert", fmt.Sprintf("assert@%s.%d", strings.ReplaceAll(point, " ", "_"), n), t, "proof step `"+pc.C.Src+"` at "+point)
+		} else {
+			c.note("assume clause at " + point + ": " + pc.C.Src)
+		}
+		s.assume(t)
+	}
+}
+
 func (c *Ctx) execFor(st *State, x *ast.ForStmt, k konts) {
+	{
+		id := c.loopID[x]
+		k.next = c.afterLoop(id, x.End(), k.next)
+	}
 	start := func(st *State) {
 		id, ls := c.loopSpec(x)
 		pos := x.Body.Lbrace + 1
@@ -427,6 +484,7 @@ func (c *Ctx) explicitMods(st *State, ls *LoopSpec, syn *modSet) *modSet {
 
 func (c *Ctx) execRange(st *State, x *ast.RangeStmt, k konts) {
 	id, ls := c.loopSpec(x)
+	k.next = c.afterLoop(id, x.End(), k.next)
 	pos := x.Body.Lbrace + 1
 	if ls == nil {
 		c.note("loop " + id + " has no invariant: cut with `true`")
